@@ -86,6 +86,13 @@ def gen_assign(rng, outs, target):
             a[sec] = ['empty']
     if rng.random() < 0.15:
         a['lua'] = ['luafile']
+    elif rng.random() < 0.1:
+        a['lua'] = ['luafile2']      # same tokens, other quote style
+    elif rng.random() < 0.08:
+        a['lua'] = ['p8inc']         # a symlinked cart with an #include
+    for sec in ('gfx', 'gff', 'map'):
+        if a[sec][0] == 'p8' and rng.random() < 0.25:
+            a[sec] = ['p8sparse']    # a .p8 that omits its all-zero sections
     return a
 
 
@@ -119,6 +126,16 @@ def generate(rng, prop, tier, index):
                           'section': rng.choice(SECTIONS),
                           'k': rng.randint(0, 40)}
         steps.append(st)
+    if rng.random() < 0.06:
+        # rebuild after an edit that changes nothing but the spelling of the
+        # program (quote style): OUT must follow the source
+        none = {sec: ['none'] for sec in SECTIONS}
+        first, second = rng.choice([('luafile', 'luafile2'),
+                                    ('luafile2', 'luafile')])
+        steps = [{'target': 'a', 'assign': dict(none, lua=[first]),
+                  'flags': []},
+                 {'target': 'a', 'assign': dict(none, lua=[second]),
+                  'flags': []}]
     extra = {}
     if rng.random() < 0.35:
         extra = {'argstyle': 'rel', 'cwd': rng.choice(['root', 'in', 'out'])}
@@ -128,7 +145,8 @@ def generate(rng, prop, tier, index):
         extra['warmup'] = True
     return {**extra, 'engine': NAME, 'seed': rng.randint(1, 10**6), 'outs': outs,
             'luafile': core.enc_bytes(
-                b'-- main\nmain_marker=%d\nfunction _draw() end\n'
+                b'-- main\nmain_marker=%d\ns1="hello" s2=\'there\'\n'
+                b'function _draw() end\n'
                 % rng.randint(1, 99999)),
             'steps': steps}
 
@@ -186,6 +204,36 @@ def empty_model():
     return c
 
 
+INC_MAIN = b'inc_main=1\n#include lib.lua\ninc_tail=2\n'
+INC_LIB_LINK = b'lib_next_to_the_link=1\n'
+INC_LIB_TARGET = b'lib_next_to_the_link_target=1\n'
+
+
+def other_quotes(code):
+    """The same program with its string literals in the other quote style."""
+    out = bytearray(code)
+    for i, c in enumerate(out):
+        if c == 0x22:
+            out[i] = 0x27
+        elif c == 0x27:
+            out[i] = 0x22
+    return bytes(out)
+
+
+_SPARSE = {}
+
+
+def sparse_cart():
+    """A cart whose gfx, gff and map are all zero (PICO-8 leaves such
+    sections out of the .p8 file altogether)."""
+    if 'c' not in _SPARSE:
+        _SPARSE['c'] = refcodec.cart_from_spec({
+            'version': 33, 'code': core.enc_bytes(b'sparse_marker=1\n'),
+            'regions': {'gfx': 'zero', 'gff': 'zero', 'map': 'zero',
+                        'sfx': 4242, 'music': 4343}})
+    return _SPARSE['c']
+
+
 _ALT = {}
 
 
@@ -217,6 +265,12 @@ def predict(prev, assign, srcs, outs_model, luafile):
             new[key] = empty[key]
         elif a[0] == 'luafile':
             new[key] = luafile
+        elif a[0] == 'luafile2':
+            new[key] = other_quotes(luafile)
+        elif a[0] == 'p8inc':
+            new[key] = INC_MAIN.replace(b'#include lib.lua\n', INC_LIB_LINK)
+        elif a[0] == 'p8sparse':
+            new[key] = sparse_cart()[key]
         elif a[0] in ('p8', 'png', 'p8odd'):
             new[key] = srcs[a[1]][key]
         elif a[0] == 'p8alt':
@@ -375,6 +429,27 @@ def execute(sc):
                          refcodec.encode_p8(srcs[i]))
                     spelled = A('in/link') + '/../s%d.p8' % a[1]
                     argv += ['--' + sec, spelled]
+                elif a[0] == 'luafile2':
+                    need('in/main2.lua', lambda: other_quotes(luafile))
+                    argv += ['--lua', A('in/main2.lua')]
+                elif a[0] == 'p8sparse':
+                    need('in/sparse.p8', lambda: refcodec.encode_p8(
+                        sparse_cart(), {'omit_empty': True}))
+                    argv += ['--' + sec, A('in/sparse.p8')]
+                elif a[0] == 'p8inc':
+                    # in/incdir/art.p8 is a symbolic link to alt2/art.p8; a
+                    # lib.lua sits next to each of them.  The cart is named
+                    # through the link, so the one next to the link counts.
+                    w.mkdir('in/incdir')
+                    w.mkdir('alt2')
+                    need('alt2/art.p8', lambda: refcodec.encode_p8(
+                        refcodec.make_cart(code=INC_MAIN)))
+                    need('alt2/lib.lua', lambda: INC_LIB_TARGET)
+                    need('in/incdir/lib.lua', lambda: INC_LIB_LINK)
+                    if not os.path.lexists(w.p('in/incdir/art.p8')):
+                        os.symlink('../../alt2/art.p8',
+                                   w.p('in/incdir/art.p8'))
+                    argv += ['--lua', A('in/incdir/art.p8')]
                 elif a[0] == 'p8odd':
                     need('in/$SND-%d.p8' % a[1], lambda i=a[1]:
                          refcodec.encode_p8(srcs[i]))
